@@ -6,40 +6,16 @@ GENERATED (GenEnv.lean / GenEnvReal.lean): the shape table `_SHAPE_NAMES`, the s
 Hand-written here, tied to the code by correspondence: `Env.__init__` (defaults, `times` wrapped
 to the segment count), `_shape_number`, `_curve_value`, `_envgen_format` (the EnvGen array), the
 segment walk of `_env_at` (generic in the number type, so the same text runs over `Rat` in the
-driver and over `ℝ` in the proofs), `_at`, and the constructors `triangle sine perc linen step cutoff
-dadsr adsr asr pairs xyc`.
+driver and over `ℝ` in the proofs), `_at`, and the constructors `step cutoff pairs xyc` (the straight-line
+constructors `triangle sine perc linen dadsr adsr asr` are GENERATED: GenCtors.lean).
 Not modelled: multichannel (list-valued) levels/times, UGen-valued entries, `cyclic`/`circle`,
 `range/exprange/curverange`, the IEnvGen format.  Core Lean only.
 -/
 import Sc3Verif.C19.GenEnv
-import Sc3Verif.C15.Model
+import Sc3Verif.C19.GenCtors
 namespace Sc3Verif.C19
 open Sc3Verif.C19.Gen
 open Sc3Verif.C15.Lift (wrapExtend)
-
-/-- a curve specification: a shape name or a curvature number -/
-inductive Curve where
-  | name (s : String)
-  | num (c : Rat)
-deriving Repr, DecidableEq, Inhabited
-
-/-- the attributes of an `Env` instance -/
-structure Env where
-  levels : List Rat
-  times : List Rat
-  curves : List Curve           -- `utl.as_list(self.curves)`
-  releaseNode : Option Int
-  loopNode : Option Int
-  offset : Rat
-deriving Repr, DecidableEq
-
-/-- `Env(levels, times, curves, release_node, loop_node, offset)`:
-    `levels or [0, 1, 0]`, `wrap_extend(as_list(times or [1, 1]), len(levels) - 1)`. -/
-def Env.new (levels times : List Rat) (curves : List Curve) (rel loop : Option Int) (offset : Rat) : Env :=
-  let lv := if levels.isEmpty then [0, 1, 0] else levels
-  let tm := if times.isEmpty then [1, 1] else times
-  { levels := lv, times := wrapExtend tm (lv.length - 1), curves := curves,
-    releaseNode := rel, loopNode := loop, offset := offset }
 
 /-- `Env._shape_number(item)`: 5 for a number, the table entry for a name, else ValueError -/
 def shapeNumber : Curve → Except String Int
@@ -115,18 +91,6 @@ def Env.at (e : Env) (time : Rat) : Except String Rat := do
 
 /-! ### constructors -/
 
-def Env.triangle (dur level : Rat) : Env :=
-  Env.new [0, level, 0] [dur * (1 / 2), dur * (1 / 2)] [.name "lin"] none none 0
-
-def Env.sine (dur level : Rat) : Env :=
-  Env.new [0, level, 0] [dur * (1 / 2), dur * (1 / 2)] [.name "sine"] none none 0
-
-def Env.perc (attack release level : Rat) (curve : Curve) : Env :=
-  Env.new [0, level, 0] [attack, release] [curve] none none 0
-
-def Env.linen (attack sustain release level : Rat) (curve : Curve) : Env :=
-  Env.new [0, level, level, 0] [attack, sustain, release] [curve] none none 0
-
 /-- `Env.step(levels, times, release_level, loop_level, offset)`: the first level is repeated; the
     release node is the index before the release level (absent when none is given). -/
 def Env.step (levels times : List Rat) (rel loop : Option Int) (offset : Rat) : Except String Env :=
@@ -143,15 +107,6 @@ def Env.cutoff (release level : Rat) (curve : Curve) : Except String Env := do
   let sh ← shapeNumber curve
   let last : Rat := if sh = 2 then 1 / 100000 else 0
   pure (Env.new [level, last] [release] [curve] (some 0) none 0)
-
-def Env.dadsr (delay attack decay sustain release peak : Rat) (curve : Curve) (bias : Rat) : Env :=
-  Env.new ([0, 0, peak, peak * sustain, 0].map (· + bias)) [delay, attack, decay, release] [curve] (some 3) none 0
-
-def Env.adsr (attack decay sustain release peak : Rat) (curve : Curve) (bias : Rat) : Env :=
-  Env.new ([0, peak, peak * sustain, 0].map (· + bias)) [attack, decay, release] [curve] (some 2) none 0
-
-def Env.asr (attack sustain release : Rat) (curve : Curve) : Env :=
-  Env.new [0, sustain, 0] [attack, release] [curve] (some 1) none 0
 
 /-- stable insertion sort by time (`list.sort(key=lambda x: x[0])`) -/
 def insertByTime (p : Rat × Rat × Curve) : List (Rat × Rat × Curve) → List (Rat × Rat × Curve)
